@@ -315,3 +315,82 @@ Qed.
 (** the opcode-table rows of the two leading arguments of a Method: a name path (no arguments) and a byte constant *)
 Definition npIdx : N := match opcodeTableIndex aml_pOpIntNamePath true with Some i => i | None => 0 end.
 Definition bpIdx : N := match opcodeTableIndex aml_pOpBytePrefix true with Some i => i | None => 0 end.
+
+(** ---- subtree sizes over the forest, the measure of the fuel of the tree walks ---- *)
+Inductive sz (g : ghost) : N -> nat -> Prop :=
+| sz_node x n : szl g (kids g x) n -> sz g x (S n)
+with szl (g : ghost) : list N -> nat -> Prop :=
+| szl_nil : szl g [] 0
+| szl_cons c l n m : sz g c n -> szl g l m -> szl g (c :: l) (n + m).
+
+Scheme sz_mut := Minimality for sz Sort Prop
+  with szl_mut := Minimality for szl Sort Prop.
+Combined Scheme sz_szl_ind from sz_mut, szl_mut.
+
+Lemma desc_trans2 g a b c : desc g a b -> desc g b c -> desc g a c.
+Proof. intros H1 H2. induction H2 as [|p q H2 IH Hin]; [exact H1|eapply desc_step; eauto]. Qed.
+
+Lemma sz_pos g x n : sz g x n -> (1 <= n)%nat.
+Proof. intros H. inversion H. lia. Qed.
+
+Lemma szl_app g l1 : forall l2 n, szl g (l1 ++ l2) n -> exists a b, szl g l1 a /\ szl g l2 b /\ n = (a + b)%nat.
+Proof.
+  induction l1 as [|c l1 IH]; intros l2 n H; cbn [app] in H.
+  - exists 0%nat, n. split; [constructor|auto].
+  - inversion H as [|c' l' n1 m1 Hc Hl]; subst. destruct (IH l2 m1 Hl) as (a & b & A & B & E).
+    exists (n1 + a)%nat, b. split; [constructor; auto|]. split; [exact B|lia].
+Qed.
+
+Lemma szl_one g c b : szl g [c] b -> sz g c b.
+Proof. intros H. inversion H as [|c' l' n m Hc Hl]; subst. inversion Hl; subst. rewrite Nat.add_0_r. exact Hc. Qed.
+
+(** the size of a subtree depends on the child lists inside it only *)
+Lemma sz_same g g' :
+  (forall x n, sz g x n -> (forall y, desc g x y -> kids g' y = kids g y) -> sz g' x n) /\
+  (forall l n, szl g l n -> (forall c y, In c l -> desc g c y -> kids g' y = kids g y) -> szl g' l n).
+Proof.
+  apply sz_szl_ind.
+  - intros x n _ IH Hk. constructor. rewrite (Hk x (desc_refl g x)). apply IH.
+    intros c y Hc Hd. apply Hk. eapply desc_trans2; [eapply desc_step; [apply desc_refl|exact Hc]|exact Hd].
+  - intros _. constructor.
+  - intros c l n m _ IH1 _ IH2 Hk. constructor.
+    + apply IH1. intros y Hd. apply (Hk c y); [left; reflexivity|exact Hd].
+    + apply IH2. intros c' y Hc' Hd. apply (Hk c' y); [right; exact Hc'|exact Hd].
+Qed.
+
+(** "the fuel does not suffice": the measures of the walk from an object / over the first children [l] of an object whose last
+    children [r] are done *)
+Definition PO (g : ghost) (x : N) (fuel : nat) : Prop := forall n, sz g x n -> (fuel < 2 * n)%nat.
+Definition PL (g : ghost) (l r : list N) (fuel : nat) : Prop := forall m, szl g l m -> (fuel < 2 * m + length r + 1)%nat.
+
+Lemma desc_chain2 (t : T) g a b y : R t g -> desc g a y -> desc g b y -> desc g a b \/ desc g b a.
+Proof.
+  intros HR Ha. revert b. induction Ha as [|p c Ha IH Hin]; intros b Hb.
+  - right. exact Hb.
+  - inversion Hb as [|p' c' Hb' Hin']; subst.
+    + left. eapply desc_step; eauto.
+    + assert (p' = p) by (eapply (R_parent_unique _ _ HR); eauto). subst p'. apply IH. exact Hb'.
+Qed.
+
+Lemma siblings_disjoint2 (t : T) g p a b y : R t g -> In a (kids g p) -> In b (kids g p) -> desc g a y -> desc g b y -> a = b.
+Proof.
+  intros HR Ha Hb Da Db. destruct (desc_chain2 t g a b y HR Da Db) as [D|D].
+  - symmetry. eapply (sibling_not_desc _ _ HR); eauto.
+  - eapply (sibling_not_desc _ _ HR); [exact Hb|exact Ha|exact D].
+Qed.
+
+
+Lemma desc_same g g' c q : (forall y, desc g c y -> kids g' y = kids g y) -> desc g' c q -> desc g c q.
+Proof.
+  intros Hk Hd. induction Hd as [|p y Hd IH Hin]; [constructor|]. eapply desc_step; [exact IH|]. rewrite <- (Hk p IH). exact Hin.
+Qed.
+
+(** the measures of the walks with useParent: the siblings [m2] that follow the object may be taken too *)
+Definition PO2 (g : ghost) (x : N) (m2 : list N) (fuel : nat) : Prop := forall n, sz g x n -> (fuel < 2 * n + length m2)%nat.
+Definition PL2 (g : ghost) (l r m2 : list N) (fuel : nat) : Prop :=
+  forall m, szl g l m -> (fuel < 2 * m + length r + length m2 + 1)%nat.
+
+Lemma desc_same_fwd g g' c q : (forall y, desc g c y -> kids g' y = kids g y) -> desc g c q -> desc g' c q.
+Proof.
+  intros Hk Hd. induction Hd as [|p y Hd IH Hin]; [constructor|]. eapply desc_step; [exact IH|]. rewrite (Hk p Hd). exact Hin.
+Qed.
